@@ -10,7 +10,7 @@ from hypothesis import strategies as st
 
 ID = 'C16'
 RULE = ('(a) exhaustive: every table of 1..3 (quick) / 1..4 (thorough) rows over the 8 possible rows, in presentation '
-        'variants (geo column/index, int/str IDs, int/float/bool and pandas-nullable Int64/boolean/Float64 cells, extra column, value columns in any order, non-default row labels when geo is a column), each accepted table queried with '
+        'variants (geo column/index, int/str IDs, int/float/bool and pandas-nullable Int64/boolean/Float64 cells, extra (partly empty) column, value columns in any order, non-default row labels when geo is a column), each accepted table queried with '
         'every non-empty ordered subset of its geos x indices in {False, True} and with None (for half of the tables through ONE list object edited in place between consecutive queries); every single malformed '
         'mutation (column dropped, geo absent, duplicate ID incl. 1 vs "1", cell in {2,-1,0.5,NaN,None,"1",<NA> in a nullable column}, duplicated '
         'value column) of a legal table; (b) Hypothesis: tables up to 10 rows with drawn subsets and mutations. '
@@ -143,7 +143,8 @@ def build_frame(spec):
       if col in df.columns and col not in nullable and not (mut and mut['kind'] == 'cell' and mut['col'] == col):
         df[col] = pd.array(list(df[col]), dtype=spec['cell'])
   if spec.get('extra_col'):
-    df['note'] = 'n'
+    # a column the class does not need (free text, partly empty)
+    df['note'] = [('n' if (i + len(df)) % 3 else None) for i in range(len(df))]
   if spec.get('col_order'):
     # value columns in another order (columns are labelled: their position must not matter)
     cols_now = [c for c in df.columns]
